@@ -133,6 +133,42 @@ Section KitP.
       rewrite fold_setz_nth by (try apply shift_idx_nodup; exact Hi).
       rewrite shift_idx_mem. rewrite (nthz_map_zrange C c0 (fun a _ => a)) by exact Hi. reflexivity.
   Qed.
+
+  (** the other way of writing the same vector: n equal samples, then a counting loop that
+      assigns cell i (the idiom of ParallelPlatesCSR) *)
+  Lemma for_upd_assign lo hi (F : Z -> C) (d : list C) :
+    for_upd lo hi (fun i acc => setz acc i (F i)) d =
+    map (fun i => if ((lo <=? i) && (i <? hi))%bool then F i else nthz d i) (zrange (zlen d)).
+  Proof. exact (for_upd_pointwise lo hi (fun i _ => F i) d). Qed.
+
+  Lemma assign_push_loop n m lo hi (z : C) (F f : Z -> C) :
+    1 <= n -> m = n -> z = c0 -> lo = 0 -> hi = n / 2 + 1 ->
+    (forall i, 0 <= i <= n / 2 -> F i = f i) ->
+    for_upd lo hi (fun i acc => setz acc i (F i)) (fill m z) = push_loop c0 n f.
+  Proof.
+    intros Hn -> -> -> -> HF. rewrite for_upd_assign. rewrite (zlen_fill C (fun a _ => a)) by lia.
+    apply list_eq_nthz.
+    - rewrite (zlen_map_zrange C (fun a _ => a)) by lia. rewrite (push_loop_len C c0 (fun a _ => a)) by lia. reflexivity.
+    - intros i Hi. rewrite (zlen_map_zrange C (fun a _ => a)) in Hi by lia.
+      rewrite (nthz_map_zrange C c0 (fun a _ => a)) by exact Hi.
+      destruct (Z.leb_spec 0 i); destruct (Z.ltb_spec i (n / 2 + 1)); cbn [andb]; try lia.
+      + rewrite (push_loop_lo C c0 (fun a _ => a)) by lia. apply HF. lia.
+      + rewrite (push_loop_hi C c0 (fun a _ => a)) by lia. apply (nthz_fill C c0 (fun a _ => a)). lia.
+  Qed.
+
+  Lemma assign_pp_vec n m lo hi (z : C) (F g : Z -> C) :
+    0 <= n -> m = n -> z = c0 -> lo = 1 -> hi = n / 2 + 1 ->
+    (forall i, 1 <= i <= n / 2 -> F i = g i) ->
+    for_upd lo hi (fun i acc => setz acc i (F i)) (fill m z) = pp_vec c0 n g.
+  Proof.
+    intros Hn -> -> -> -> HF. rewrite for_upd_assign. rewrite (zlen_fill C (fun a _ => a)) by lia.
+    apply list_eq_nthz.
+    - rewrite (zlen_map_zrange C (fun a _ => a)) by lia. rewrite (pp_vec_len C c0 (fun a _ => a)) by lia. reflexivity.
+    - intros i Hi. rewrite (zlen_map_zrange C (fun a _ => a)) in Hi by lia.
+      rewrite (nthz_map_zrange C c0 (fun a _ => a)) by exact Hi. rewrite (pp_vec_nth C c0 (fun a _ => a)) by exact Hi.
+      destruct (Z.leb_spec 1 i); destruct (Z.ltb_spec i (n / 2 + 1)); destruct (Z.leb_spec i (n / 2));
+        cbn [andb]; try lia; first [apply HF; lia | apply (nthz_fill C c0 (fun a _ => a)); lia].
+  Qed.
 End KitP.
 
 (** ** the generated definitions, for every field and every interpretation of the leaves *)
@@ -179,6 +215,12 @@ Section GenP.
     abstract_leaf2 (l_pw E); abstract_leaf1 (l_sq E); abstract_leaf1 (l_lg E); intros;
     first [reflexivity | f_equal; first [reflexivity | field; nz]].
 
+  (** the generated vector is [push_loop] with the generated sample function, whichever of the two
+      idioms (push_back loops / assignment into n zeros) the source uses; leaves the sample equation *)
+  Ltac push_loop_shape :=
+    first [ apply segs_push_loop; try lia; [|reflexivity]
+          | apply assign_push_loop; try lia; [reflexivity|] ].
+
   (** *** Impedance(nfreqs, f_max) *)
   Theorem gen_zeros n : Impedance_zeros K E n = zero_vec c0 n.
   Proof. reflexivity. Qed.
@@ -201,21 +243,21 @@ Section GenP.
 
   (** *** FreeSpaceCSR *)
   Theorem gen_fs_vec n f_rev f_max :
-    f_rev <> 0 -> @fz K (n - 1) <> 0 ->
+    (1 <= n)%Z -> f_rev <> 0 -> @fz K (n - 1) <> 0 ->
     FreeSpaceCSR_ctor K E n f_rev f_max = sp_fs_vec E n f_rev f_max.
   Proof.
-    intros Hf Hn. unfold FreeSpaceCSR_ctor, FreeSpaceCSR_calc, sp_fs_vec. cbv zeta.
-    apply segs_push_loop; try lia; [|reflexivity].
+    intros Hn1 Hf Hn. unfold FreeSpaceCSR_ctor, FreeSpaceCSR_calc, sp_fs_vec. cbv zeta.
+    push_loop_shape.
     intros i Hi. unfold sp_fs_sample, sp_fs_Z0, sp_delta, three. sample_eq.
   Qed.
 
   (** *** ResistiveWall *)
   Theorem gen_rw_vec n f0 f_max L s xi b :
-    f0 <> 0 -> @fz K (n - 1) <> 0 -> s <> 0 -> b <> 0 -> l_pi E <> 0 -> l_c E <> 0 ->
+    (1 <= n)%Z -> f0 <> 0 -> @fz K (n - 1) <> 0 -> s <> 0 -> b <> 0 -> l_pi E <> 0 -> l_c E <> 0 ->
     ResistiveWall_ctor K E n f0 f_max L s xi b = sp_rw_vec E n f0 f_max L s xi b.
   Proof.
-    intros Hf Hn Hs Hb Hpi Hc. unfold ResistiveWall_ctor, ResistiveWall_calc, sp_rw_vec. cbv zeta.
-    apply segs_push_loop; try lia; [|reflexivity].
+    intros Hn1 Hf Hn Hs Hb Hpi Hc. unfold ResistiveWall_ctor, ResistiveWall_calc, sp_rw_vec. cbv zeta.
+    push_loop_shape.
     intros i Hi. unfold sp_rw_sample, sp_rw_Z1, sp_delta, two. cbv zeta.
     rewrite (fz_sub K n 1) in *. change (@fz K 1) with (@f1 K) in *. sample_eq.
   Qed.
@@ -235,6 +277,15 @@ Section GenP.
     f_equal; first [reflexivity | unfold sp_coll_Z; sample_eq].
   Qed.
 
+  (** *** ParallelPlatesCSR: only the loop that stores the samples is translated (the value is the
+      leaf [l_PPs]): samples 1..n/2 of a vector of n zeros *)
+  Theorem gen_pp_vec n f0 f_max g : (0 <= n)%Z ->
+    ParallelPlatesCSR_ctor K E n f0 f_max g = sp_pp_vec E n f0 f_max g.
+  Proof.
+    intros Hn. unfold ParallelPlatesCSR_ctor, ParallelPlatesCSR_calc, sp_pp_vec. cbv zeta.
+    apply assign_pp_vec; first [lia | reflexivity | (intros i _; reflexivity)].
+  Qed.
+
   (** *** shape of the generated vectors, for every sample count n >= 1 (odd, even, small) and
       whatever the sample expressions are: exactly n samples, zero above n/2 (constant model:
       from n/2 on) *)
@@ -247,21 +298,23 @@ Section GenP.
      forall i, (0 <= i < n / 2)%Z -> nthz c0 (ConstImpedance_ctor K E n f_max z) i = z) /\
     (zlen (CollimatorImpedance_ctor K E n f_max outer inner) = n /\
      zero_above (CollimatorImpedance_ctor K E n f_max outer inner) (n / 2 - 1)) /\
-    (zlen (Impedance_zeros K E n) = n /\ zero_above (Impedance_zeros K E n) (-1)).
+    (zlen (Impedance_zeros K E n) = n /\ zero_above (Impedance_zeros K E n) (-1)) /\
+    (zlen (ParallelPlatesCSR_ctor K E n f0 f_max b) = n /\ nthz c0 (ParallelPlatesCSR_ctor K E n f0 f_max b) 0 = c0 /\
+     zero_above (ParallelPlatesCSR_ctor K E n f0 f_max b) (n / 2)).
   Proof.
-    intros Hn.
+    intros Hn. rewrite gen_pp_vec by lia. unfold sp_pp_vec.
     assert (Ffs : exists f, FreeSpaceCSR_ctor K E n f_rev f_max = push_loop c0 n f).
     { eexists. unfold FreeSpaceCSR_ctor, FreeSpaceCSR_calc. cbv zeta.
-      apply segs_push_loop; try lia; [intros i _; reflexivity|reflexivity]. }
+      push_loop_shape. intros i _. reflexivity. }
     assert (Frw : exists f, ResistiveWall_ctor K E n f0 f_max L s xi b = push_loop c0 n f).
     { eexists. unfold ResistiveWall_ctor, ResistiveWall_calc. cbv zeta.
-      apply segs_push_loop; try lia; [intros i _; reflexivity|reflexivity]. }
+      push_loop_shape. intros i _. reflexivity. }
     assert (Fco : exists w, CollimatorImpedance_ctor K E n f_max outer inner = const_vec c0 n w).
     { eexists. unfold CollimatorImpedance_ctor. apply gen_const_vec. lia. }
     destruct Ffs as (ffs & ->). destruct Frw as (frw & ->). destruct Fco as (w & ->).
     rewrite gen_const_vec by lia. rewrite gen_zeros.
     destruct (impedance_shape_all C c0 n ffs frw z Hn) as ((A1 & _ & A3) & _ & (C1 & C2 & C3) & (D1 & D2)).
-    destruct (impedance_shape_all C c0 n frw frw w Hn) as ((B1 & _ & B3) & _ & (W1 & _ & W3) & _).
+    destruct (impedance_shape_all C c0 n frw (l_PPs E n f0 f_max b) w Hn) as ((B1 & _ & B3) & (P1 & P2 & _ & P4) & (W1 & _ & W3) & _).
     repeat split; assumption.
   Qed.
 
